@@ -1,9 +1,9 @@
 package edit
 
 import (
-	"time"
 	"fmt"
 	"strings"
+	"time"
 
 	"oss.terrastruct.com/d2/d2format"
 	"oss.terrastruct.com/d2/d2graph"
